@@ -71,6 +71,10 @@ func c10Spec(c c10Case) idp.LogoutSpec {
 		l.Status = "nocode"
 	case 3:
 		l.Status = "urn:oasis:names:tc:SAML:2.0:status:Responder"
+	case 4:
+		l.Status = "urn:oasis:names:tc:SAML:2.0:status:Responder>" + idp.StatusSuccess
+	case 5:
+		l.Status = idp.StatusSuccess + ">urn:oasis:names:tc:SAML:2.0:status:PartialLogout"
 	}
 	switch c.Sign {
 	case 1:
@@ -160,7 +164,7 @@ func c10Model(c c10Case) (v []c03Viol) {
 			v = append(v, c03Viol{"Status absent", []string{"Status"}, []string{"ErrMissingElement"}})
 		case 2:
 			v = append(v, c03Viol{"StatusCode absent", []string{"StatusCode"}, []string{"ErrMissingElement"}})
-		case 3:
+		case 3, 4:
 			v = append(v, c03Viol{"StatusCode not Success", []string{"StatusCode"}, []string{"ErrInvalidValue"}})
 		}
 	}
@@ -404,7 +408,7 @@ func c10Cases() []c10Case {
 		c.Dest = ch.Choose("dest", 5)
 		c.Issuer = ch.Choose("issuer", 3)
 		if c.Kind == "LogoutResponse" {
-			c.Status = ch.Choose("status", 4)
+			c.Status = ch.Choose("status", 6)
 		}
 		c.Sign = ch.Choose("sign", len(c10Sign))
 		c.Deflate = ch.Bool("deflate")
@@ -425,7 +429,7 @@ func c10Cases() []c10Case {
 }
 
 func c10Run(r *mc.Run) {
-	r.Rule = "full product kind(2) x Version(3) x Destination(5: SLO URL, absent, empty, ACS URL, evil) x Issuer(3) x Status(4, LogoutResponse) x signing state(9: unsigned, K1, K2, untrusted, tampered, 4 wrapping/relocation shapes) x presentation(2) x signature checking(2) x IdP issuer configured(2), unsigned roots also with a self-asserted SignatureValidated attribute; kind-confusion matrix 3x3x2x2; ValidateDecoded* on hand-built structs (full field product); non-trivial = the message reached the field checks or the signature logic (all do); distinct = distinct case"
+	r.Rule = "full product kind(2) x Version(3) x Destination(5: SLO URL, absent, empty, ACS URL, evil) x Issuer(3) x Status(6 incl. nested second-level codes, LogoutResponse) x signing state(9: unsigned, K1, K2, untrusted, tampered, 4 wrapping/relocation shapes) x presentation(2) x signature checking(2) x IdP issuer configured(2), unsigned roots also with a self-asserted SignatureValidated attribute; kind-confusion matrix 3x3x2x2; ValidateDecoded* on hand-built structs (full field product); non-trivial = the message reached the field checks or the signature logic (all do); distinct = distinct case"
 	r.Assume("RSA unforgeable", "goxmldsig canonicalisers used by the harness signer")
 	cases := c10Cases()
 	n := len(cases)
